@@ -3,6 +3,8 @@ package mon
 import (
 	"bytes"
 	"crypto"
+	"crypto/ecdsa"
+	"crypto/ed25519"
 	crand "crypto/rand"
 	"encoding/base32"
 	"encoding/base64"
@@ -361,6 +363,46 @@ var c17KeyBits = map[uint8][]int{
 	dns.ECDSAP256SHA256: {256}, dns.ECDSAP384SHA384: {384}, dns.ED25519: {256},
 }
 
+// c17GeneratedMany: the public key a generated DNSKEY carries is the private key's public key in the
+// RFC 6605 / RFC 8080 layout - also for the one key in 256 (each coordinate) whose X or Y has a leading
+// zero octet. Structural comparison, no signing, so that hundreds of keys per case are affordable.
+func c17GeneratedMany(w *core.W, j int) {
+	short := 0
+	for k := 0; k < 160; k++ {
+		alg := []uint8{dns.ECDSAP256SHA256, dns.ECDSAP384SHA384, dns.ECDSAP256SHA256, dns.ED25519}[k%4]
+		key := &dns.DNSKEY{Hdr: dns.RR_Header{Name: "many.example.", Rrtype: dns.TypeDNSKEY, Class: 1, Ttl: 60}, Flags: 256, Protocol: 3, Algorithm: alg}
+		priv, err := key.Generate(algBits[alg][0])
+		if err != nil {
+			w.Violation("C17/key-generation-fails/"+algName(alg), fmt.Sprintf("Generate: %v", err), nil)
+			return
+		}
+		w.Eval(1)
+		pub, derr := base64.StdEncoding.DecodeString(key.PublicKey)
+		var want []byte
+		switch p := priv.(type) {
+		case *ecdsa.PrivateKey:
+			n := (p.Curve.Params().BitSize + 7) / 8
+			want = make([]byte, 2*n)
+			p.X.FillBytes(want[:n])
+			p.Y.FillBytes(want[n:])
+			if want[0] == 0 || want[n] == 0 {
+				short++
+			}
+		case ed25519.PrivateKey:
+			want = []byte(p.Public().(ed25519.PublicKey))
+		default:
+			continue
+		}
+		if derr != nil || !bytes.Equal(pub, want) {
+			w.Violation("C17/generated-public-key-wrong/"+algName(alg), fmt.Sprintf("the DNSKEY produced by Generate carries %x, the private key's public key is %x", pub, want), map[string]any{"alg": algName(alg)})
+			return
+		}
+	}
+	w.Count("generated_keys_compared", 160)
+	w.Count("generated_keys_with_short_coordinate", short)
+	w.NontrivialStr("many", fmt.Sprint(j))
+}
+
 func c17Keys(w *core.W, j int) {
 	alg := allAlgs[j%len(allAlgs)]
 	if alg == dns.RSASHA1 && (j/len(allAlgs))%2 == 1 {
@@ -523,6 +565,7 @@ func init() {
 		section{"nsec3-hash", tiered(200, 6000), c17Hash},
 		section{"nsec3-cover", tiered(150, 5000), c17Cover},
 		section{"keys", tiered(28, 700), c17Keys},
+		section{"generated-many", tiered(20, 300), c17GeneratedMany},
 		section{"validity", tiered(100, 4000), c17Validity},
 	)
 	core.Register(&core.Monitor{
